@@ -49,6 +49,29 @@ def kills_md():
     return "\n".join(out)
 
 
+def refactors_md():
+    alarmed = {}
+    applied = 0
+    for f in sorted(glob.glob(V + "/evidence/C*.json")):
+        e = json.load(open(f))
+        st = e["coverage"].get("refactor_selftest")
+        if not st:
+            continue
+        applied = max(applied, st["applied"])
+        for rid, alarms in st["alarmed"].items():
+            alarmed.setdefault(rid, {})[e["property_id"]] = sorted(set(a[0] for a in alarms))
+    ids = sorted(os.path.basename(d) for d in glob.glob(V + "/refactors/*") if os.path.exists(d + "/patch.diff"))
+    out = ["%d refactorings replayed against all 20 checks in the last thorough run; %d silent, %d alarmed." % (len(ids), len(ids) - len(alarmed), len(alarmed)), "",
+           "| refactoring | files | result |", "|---|---|---|"]
+    for rid in ids:
+        files = sorted(set(l[6:].strip() for l in open(V + "/refactors/" + rid + "/patch.diff") if l.startswith("+++ b/")))
+        res = "silent"
+        if rid in alarmed:
+            res = "**alarm**: " + "; ".join("%s (%s)" % (p, ", ".join(r)) for p, r in sorted(alarmed[rid].items()))
+        out.append("| %s | %s | %s |" % (rid, ", ".join(f.replace("pkg/", "") for f in files), res))
+    return "\n".join(out)
+
+
 def splice(text, tag, body):
     pat = re.compile(r"(<!-- GENERATED:%s -->).*?(<!-- /GENERATED -->)" % tag, re.S)
     return pat.sub(lambda m: m.group(1) + "\n" + body + "\n" + m.group(2), text)
@@ -59,6 +82,7 @@ def main():
     t = open(p).read()
     t = splice(t, "RULES", rules_md())
     t = splice(t, "KILLS", kills_md())
+    t = splice(t, "REFACTORS", refactors_md())
     open(p, "w").write(t)
     print("DESIGN.md tables regenerated")
 
